@@ -22,7 +22,8 @@ each argument, auto-escape on and off):
   (3) a strict / falsy-strict render raises UndefinedError only if the probe
       run saw a failed lookup; in particular never on the undeleted data of a
       program all of whose references resolve;
-  (4) when the probe sees no failed lookup all policies give one outcome.
+  (4) when the probe sees no failed lookup all policies give one outcome;
+  (5) adding a variable the program never mentions changes nothing.
 """
 
 from __future__ import annotations
@@ -545,20 +546,43 @@ ARGS_OF = {
 SEQ_FILTERS = ["size", "first", "last", "join", "where", "map", "sort", "concat", "compact", "uniq", "sum", "slice", "reverse"]
 
 
+SCALAR_FILTERS = ["default", "default", "size", "upcase", "downcase", "append", "prepend", "escape", "plus", "minus",
+                  "times", "slice", "split", "first", "last", "join", "sum"]
+PLAIN_SEQ_FILTERS = ["size", "first", "last", "join", "sort", "concat", "compact", "uniq", "sum", "slice", "reverse", "default"]
+DICT_SEQ_FILTERS = ["where", "where", "map", "map", "size", "first", "last", "compact", "sum", "uniq", "reverse", "concat"]
+NUMS = [P("n"), P("k"), P("d", "q"), P("l", 0), P("ld", 0, "a"), L(0), L(1), L(2), P("w"), M, P("d", "nope"), P("l", 7)]
+
+
 def gen_fexpr(r: Any, local: list[str], allow_arr: bool = True, depth: int = 2) -> tuple:
     g = lambda: gen_prim(r, local=local)  # noqa: E731
     x = r.random()
+    kind = "scalar"
     if allow_arr and x < 0.12:
         e: tuple = ("arr", [gen_prim(r, local=local) for _ in range(r.choice([2, 2, 3]))])
-        seq = True
+        kind = "seq"
+    elif r.random() < 0.45:
+        e = gen_prim(r, seq=True, local=local)
+        kind = "dseq" if e == P("ld") else "seq"
     else:
-        seq = r.random() < 0.45
-        e = gen_prim(r, seq=seq, local=local)
+        e = gen_prim(r, local=local)
     for _ in range(r.choice([0, 1, 1, 1, 2, 2, 3][:depth + 4])):
-        f = r.choice(SEQ_FILTERS) if (seq and r.random() < 0.7) else r.choice(FILTERS)
+        y = r.random()
+        if y < 0.2:
+            f = r.choice(FILTERS)
+        elif kind == "dseq":
+            f = r.choice(DICT_SEQ_FILTERS)
+        elif kind == "seq":
+            f = r.choice(PLAIN_SEQ_FILTERS)
+        else:
+            f = r.choice(SCALAR_FILTERS)
         pos, kw = ARGS_OF[f](r, g)
         e = ("filter", e, f, pos, kw)
-        seq = f in ("where", "map", "sort", "concat", "compact", "uniq", "slice", "reverse", "split")
+        if f in ("where", "compact", "uniq", "reverse", "concat") and kind == "dseq":
+            kind = "dseq"
+        elif f in ("where", "map", "sort", "concat", "compact", "uniq", "reverse", "split") or (f == "slice" and kind != "scalar"):
+            kind = "seq"
+        else:
+            kind = "scalar"
     return e
 
 
@@ -572,6 +596,8 @@ def gen_cond(r: Any, local: list[str], depth: int = 2) -> tuple:
         if op in ("contains", "in") and r.random() < 0.7:
             c = gen_prim(r, seq=True, local=local)
             return ("cmp", op, c, g()) if op == "contains" else ("cmp", op, g(), c)
+        if op in ("lt", "le", "gt", "ge") and r.random() < 0.8:
+            return ("cmp", op, r.choice(NUMS), r.choice(NUMS))
         return ("cmp", op, g(), g())
     if x < 0.75:
         return ("not", gen_cond(r, local, depth - 1))
@@ -998,6 +1024,13 @@ def main(chk: C.Check, build: C.Build) -> None:
         refs_of_block(prog, acc)
         complete = all(resolves(data, x) for x in acc)
         oracle(chk, src, data, outs, complete=complete)
+        # a variable the program never mentions is invisible (all policies)
+        if "qq_unused" not in src:
+            for pol in ("S", "D") if not thorough else POLS:
+                o2 = render_impl(src, {**data, "qq_unused": [1]}, pol)
+                if o2 != outs[pol]:
+                    chk.finding("unused-variable-visible", f"adding the unmentioned variable qq_unused changed the outcome {outs[pol]!r} -> {o2!r}: {src!r}",
+                                {"source": src, "data": data, "policy": pol, "without": outs[pol], "with": o2})
         for pol in POLS:
             o = outs[pol]
             dist["ok" if o[0] == "ok" else "miss" if o[0] == "miss" else "UndefinedError" if o[1] == "UndefinedError" else "other_error"] += 1
